@@ -2496,7 +2496,9 @@ class CencSampleEncryptionBox(FullBox):
         return rv
 
     def encode_fields(self, dest):
-        if len(self.samples) > 0:
+        # UseSubsampleEncryption is only implied by a sample that actually
+        # carries sub-samples; IV-only samples (e.g. audio) keep flags as parsed
+        if any(s.subsamples for s in self.samples):
             self.flags |= 0x02
         super().encode_fields(dest)
 
